@@ -105,13 +105,13 @@ package shimagent
 //@ # filter: purge of expired / orphan certificates (its own contract is refined under C07)
 //@ func (*Server).filter(s)
 //@   flag logged
-//@   requires s != nil && inv(s) && wheld(s) && certsNonNil(s)
+//@   requires s != nil && inv(s) && wheld(s) && certsNonNil(s) && cacheOff(s)
 //@   modifies mapof(s.certs), mapof(s.upstreamSSHCACertCache)
 //@   ensures wheld(s) && inv(s)
 //@   ensures err != nil ==> (inMemoryCerts == nil && inAgentKeys == nil)
 //@   ensures err == nil ==> inMemoryCerts == s.certs
 //@   ensures [listed-keys-are-well-formed] err == nil ==> forall(j, 0 <= j && j < len(inAgentKeys), inAgentKeys[j] != nil && akBlob(inAgentKeys[j]) == blobid(asKey(inAgentKeys[j])))
-//@   ensures [in-memory-entries-are-objects] certsNonNil(s)
+//@   ensures [in-memory-entries-are-objects] certsNonNil(s) && cacheOff(s)
 
 //@ func (*Server).remove(s, key)
 //@   flag logged
@@ -288,7 +288,7 @@ package shimagent
 //@     invariant wheld(s) && inv(s) && !old(s.locked)
 //@     invariant calls(filter) == f0 + 1 && arg(filter, f0, 0) == s && ret(filter, f0, 2) == nil && err == nil
 //@     invariant certsInMemory == s.certs && keysInAgent == ret(filter, f0, 1)
-//@     invariant cacheOff(s) && (keys == nil || fresh(arr(keys)))
+//@     invariant cacheOff(s) && (keys == nil || (fresh(arr(keys)) && arr(keys) != arr(keysInAgent)))
 //@     invariant certsNonNil(s)
 //@     invariant forall(j, 0 <= j && j < len(keysInAgent), keysInAgent[j] != nil && akBlob(keysInAgent[j]) == blobid(asKey(keysInAgent[j])))
 //@     invariant forall(i, 0 <= i && i < len(keys), keys[i] != nil && exists(h#bytes, h in dom(s.certs), akBlob(keys[i]) == blobid(asKey(s.certs[h]))))
@@ -297,7 +297,7 @@ package shimagent
 //@     invariant wheld(s) && inv(s) && !old(s.locked)
 //@     invariant calls(filter) == f0 + 1 && arg(filter, f0, 0) == s && ret(filter, f0, 2) == nil && err == nil
 //@     invariant keysInAgent == ret(filter, f0, 1)
-//@     invariant cacheOff(s) && (keys == nil || fresh(arr(keys)))
+//@     invariant cacheOff(s) && (keys == nil || (fresh(arr(keys)) && arr(keys) != arr(keysInAgent)))
 //@     invariant mapdom(s.certs) == entry(mapdom(s.certs)) && mapval(s.certs) == entry(mapval(s.certs))
 //@     invariant certsNonNil(s)
 //@     invariant forall(j, 0 <= j && j < len(keysInAgent), keysInAgent[j] != nil && akBlob(keysInAgent[j]) == blobid(asKey(keysInAgent[j])))
